@@ -327,6 +327,45 @@ impl StateMonitor {
         structural_buckets(&om, out);
     }
 
+    /// real-scale case: a binary file shipped with the repository (ontology.hpo holds the complete HPO,
+    /// ~19 500 terms and ~17 800 records), decoded independently and compared through the whole read API
+    fn shipped_case(&self, name: &str, out: &mut CaseOut) {
+        let (v, view, bytes) = match shipped_facts(name) {
+            Ok(x) => x,
+            Err(e) => {
+                out.inconclusive = Some(format!("shipped file {name}: {e}"));
+                return;
+            }
+        };
+        out.bucket(&format!("shipped/{name}"));
+        out.sig = crate::rng::hash_bytes(name.as_bytes());
+        out.nontrivial = true;
+        out.case = Json::obj().set("shipped_file", Json::s(name)).set("format_version", Json::u(u64::from(v))).set("facts", view.summary());
+        let ont = match drive::from_bytes(&bytes) {
+            Ok(o) => o,
+            Err(e) => {
+                out.violate(self.prop, &format!("shipped_file_rejected/{name}"), format!("{e}"));
+                return;
+            }
+        };
+        let (model, obs, diffs) = walk_and_diff(&view, true, &ont, out);
+        structural_buckets(&model, out);
+        for d in &diffs {
+            if owns(self.prop, &d.site) {
+                out.violate(self.prop, &format!("{}/shipped_{name}", d.site), d.detail.clone());
+            }
+        }
+        match self.prop {
+            "C01" => {
+                self.pairwise_c01(&ont, &model, out);
+                self.self_consistency_c01(&obs, out, "/shipped");
+            }
+            "C02" => self.c02_extra(&model, &view, out),
+            "C03" => self.c03_checks(&model, &obs, out),
+            _ => {}
+        }
+    }
+
     fn c02_extra(&self, m: &Model, view: &FactSet, out: &mut CaseOut) {
         // classification buckets from the quantifier
         for k in 0..3 {
@@ -515,6 +554,9 @@ impl Monitor for StateMonitor {
                 v.push(format!("rndc19:{i}"));
             }
         }
+        for i in 0..SHIPPED_FILES.len() {
+            v.push(format!("real:{i}"));
+        }
         if self.prop == "C01" {
             for i in 0..tier.pick(400, 20_000) {
                 v.push(format!("sub:{i}"));
@@ -534,6 +576,7 @@ impl Monitor for StateMonitor {
 
     fn mandatory_buckets(&self, _tier: Tier) -> Vec<String> {
         let mut v: Vec<String> = ALL_PATHS.iter().map(|p| format!("path/{}", p.name())).collect();
+        v.push("shipped/ontology.hpo".to_string());
         match self.prop {
             "C01" => {
                 for b in [
@@ -598,6 +641,10 @@ impl Monitor for StateMonitor {
         }
         if label.starts_with("sub:") {
             self.sub_ontology_case(&mut rng, tier, &mut out);
+            return out;
+        }
+        if let Some(i) = label.strip_prefix("real:") {
+            self.shipped_case(SHIPPED_FILES[i.parse::<usize>().unwrap() % SHIPPED_FILES.len()], &mut out);
             return out;
         }
         let sc = if label.starts_with("rndc19") {
